@@ -112,8 +112,8 @@ type c8Mbox struct {
 	Flags       c8Set
 	Perm        c8Set
 	Attrs       c8Set
-	UIDNext     uint32           // the UID the next added message gets; never goes back
-	Rows        []c8Row          // ascending UID; slice is replaced, not mutated
+	UIDNext     uint32          // the UID the next added message gets; never goes back
+	Rows        []c8Row         // ascending UID; slice is replaced, not mutated
 	In          map[c8ID]uint32 // message -> UID; replaced, not mutated
 }
 
